@@ -505,7 +505,9 @@ def misc_request(case, s, o):
         st = o["before"]["comparisons"][name][k]
         bfs.append(core.f2b(bf_of(st)))
     return {"op": "em_misc", "prior": core.f2b(o["before"]["prior"]), "bfs": bfs, "levels": [[COLCODE[x] for x in e[2]] for e in exact_levels(case)],
-            "ruleCols": [COLCODE[x] for x in mentioned_cols(s)], "values": []}
+            # the columns the rule EQUATES (a top-level conjunct l.c = r.c): since the repair F32 (11e91c1c) a column the rule merely mentions
+            # (substr prefix, cross-column key) no longer enters the starting prior; it still deactivates its comparison (mentioned_cols)
+            "ruleCols": [COLCODE[x] for x in s["rule_cols"]], "values": []}
 
 
 def step_request(case, s, theta):
@@ -899,7 +901,7 @@ def compare(ctx, cases, drv):
                     bad = f"session {si}: starting prior {o['history'][0]['prior']} vs EM.startPrior {core.b2f(m['startPrior'])}"
                     break
                 ctx.count("levels_implied_by_rule (sizes of the exact-match levels used for the starting prior)", "+".join(str(len(ex[j][2])) for j in m["levelsToReverse"]) or "none")
-                cover = [e for e in ex if set(e[2]) <= set(mentioned_cols(s))]
+                cover = [e for e in ex if set(e[2]) <= set(s["rule_cols"])]
                 ctx.count("exact_levels_within_rule_columns vs used", f"{len(cover)} candidates -> {len(real)} used")
                 ctx.traces_validated += 1
                 continue
@@ -1024,8 +1026,8 @@ def run(ctx: core.Ctx):
     else:
         from harness import graphs
 
-        cases = (graphs.load_corpus(PROP) + [gen_case(ctx.rng) for _ in range(ctx.budget(90, 1500))]
-                 + [gen_levels_case(ctx.rng) for _ in range(ctx.budget(45, 700))])
+        cases = (graphs.load_corpus(PROP) + [gen_case(ctx.rng) for _ in range(ctx.budget(220, 1500))]
+                 + [gen_levels_case(ctx.rng) for _ in range(ctx.budget(110, 700))])
     problems = compare(ctx, cases, drv)
     if (not ctx.lean.ok or any(not conc for _, _, conc in problems)) and not ctx.replay:
         ctx.notes.append("proof or correspondence broke: ran the widened failing-input search")
@@ -1048,7 +1050,7 @@ def run(ctx: core.Ctx):
         ctx.violation("real output violates C03: " + classify(what) + "".join(f" [{k}]" for k, v in key.items() if v is True),
                       {"case": small, "observed": rr if len(json.dumps(rr, default=str)) < 20000 else "(large)", "detail": what},
                       kind="concrete", match_info=dict(failure_key(small, what), names=small["names"]["a"]))
-    if not concrete:
+    if not ctx.violations:  # no NEW concrete violation (none at all, or only ones a registered known finding describes)
         if broken:
             c, w = broken[0]
             ctx.violation("correspondence EM model <-> expectation_maximisation.py no longer checks",
